@@ -36,8 +36,7 @@ def run(module, cfg=None, env=None, workers=16, timeout=3600, simulate=None, dep
     meta = tempfile.mkdtemp(prefix='tlc-meta-')
     cfg = cfg or (module + '.cfg')
     cmd = ['java', '-XX:+UseParallelGC']
-    if heap:
-        cmd.append('-Xmx%s' % heap)
+    cmd.append('-Xmx%s' % (heap or os.environ.get('VERIF_TLC_HEAP', '6g')))
     cmd += ['-Djava.io.tmpdir=' + meta, '-cp', JAVA_CP, 'tlc2.TLC', '-workers', str(workers), '-metadir', meta,
             '-noGenerateSpecTE', '-config', cfg]
     if not deadlock:
